@@ -60,6 +60,9 @@ def run(db, rep, tier):
                                   "words) announces exactly the offset at which trailer_size() makes the extension structure start (the quoted "
                                   "datagram padded to at least 128 octets); both functions EXECUTED for sample sizes", 2)
     r9_len(db, rep)
+    rep.rule("R10-mpls-bottom", "MPLS marker: a label that has a parent gets its bottom-of-stack bit exactly when no label follows it (no "
+                                "inner layer, or an inner layer of any class other than MPLS); the serialiser is EXECUTED for every layer class", 1)
+    r10_mpls(db, rep)
     rep.explanation = ("Ordering / protocol part of C05: for each checksum producer the zero-write-sum-fold-complement-store-patch sequence "
                        "and the pseudo-header arguments (R1); header fields are final when written (R2); tags come from the immediate "
                        "child and the IPv6 extension chain is linked for every index (R3); padding is zero after the payload (R4). "
@@ -1035,6 +1038,61 @@ def r6_fresh(db, rep):
                 rep.ok("R6-fresh-derived", key, facts.loc(f, x), "not guarded by an ordering test on its own old value")
     if n < 40:
         rep.analysis_broken("only %d derived-field stores found in serialisers" % n)
+
+
+def r10_mpls(db, rep):
+    from vlib import ieval
+    f = fn(db, "Tins::MPLS::write_serialization")
+    en = db.enums.get("Tins::PDU::PDUType")
+    if f is None or not en:
+        rep.analysis_broken("MPLS::write_serialization / PDU::PDUType vanished")
+        return
+    mpls = [e["v"] for e in en["enumerators"] if e["name"] == "MPLS"]
+    if not mpls:
+        rep.analysis_broken("PDU::MPLS not found")
+        return
+    key = "MPLS::write_serialization:bottom-of-stack"
+    bad = None
+    n = 0
+    try:
+        for has_child in (0, 1):
+            for t in (sorted(set(e["v"] for e in en["enumerators"])) if has_child else [0]):
+                def tf(e, env, has_child=has_child, t=t):
+                    k = e["k"]
+                    if k == "ImplicitCastExpr" and e.get("ck") == "PointerToBoolean":
+                        return 1 if "parent_pdu" in facts.expr_str(facts.inline_locals(f, e, all_types=True)) else has_child
+                    if k == "CXXMemberCallExpr" and e.get("cname") == "pdu_type":
+                        return t
+                    if k == "CXXMemberCallExpr" and e.get("cname") in ("inner_pdu", "parent_pdu") and len(e["c"]) == 1:
+                        return 1 if e["cname"] == "parent_pdu" else has_child
+                    if k == "BinaryOperator" and e.get("op") in ("==", "!=") and any(
+                            y["k"] in ("CXXNullPtrLiteralExpr", "GNUNullExpr") or facts.cval(y) == 0 for y in e["c"]) and \
+                            any((facts.ty(f, y) or {}).get("k") == "ptr" for y in e["c"]):
+                        other = [y for y in e["c"] if not (y["k"] in ("CXXNullPtrLiteralExpr", "GNUNullExpr") or facts.cval(y) == 0)]
+                        nn = 1 if other and "parent_pdu" in facts.expr_str(facts.inline_locals(f, other[0], all_types=True)) else has_child
+                        return int(nn != 0) if e["op"] == "!=" else int(nn == 0)
+                    return None
+                eff = ieval.trace(f, f["body"], {"__termfn2__": tf, "__db__": db})
+                setb = any(k_ in ("call", "assign", "other") and any(
+                    y["k"] == "CXXMemberCallExpr" and y.get("cname") == "bottom_of_stack" and len(y["c"]) == 2 and
+                    any(facts.cval(z) == 1 for z in facts.walk(y["c"][1]))
+                    for y in facts.walk(n_)) for k_, n_ in eff)
+                want = (not has_child) or t != mpls[0]
+                n += 1
+                if setb != want and bad is None:
+                    nm = [e_["name"] for e_ in en["enumerators"] if e_["v"] == t]
+                    bad = ("with a parent and %s the bottom-of-stack bit is %s: %s" %
+                           ("an inner layer of type %s" % (nm[0] if nm else t) if has_child else "no inner layer",
+                            "set" if setb else "NOT set",
+                            "the last label of the stack goes out with S = 0 and decoders keep reading the payload as further labels"
+                            if want else "a label that is followed by another label claims to be the last one"))
+    except ieval.Unknown as e:
+        rep.undecided("R10-mpls-bottom", key, facts.loc(f), "outside the finite evaluator: %s" % e)
+        return
+    if bad:
+        rep.violation("R10-mpls-bottom", key, facts.loc(f), bad)
+    else:
+        rep.ok("R10-mpls-bottom", key, facts.loc(f), "S set iff no label follows, for all %d cases" % n)
 
 
 def r9_len(db, rep):
